@@ -25,3 +25,23 @@ claim("C03", "other",
   "Complete enumeration of panic-capable SSA instructions in all functions reachable from the API; nil dereferences decided by a whole-program abstract interpreter (nil-ness, struct shapes derived from construction sites, trace partitioning, recursive summaries), bounds by linear entailment (Fourier-Motzkin) from dominating conditions, memory versioning, stdlib contracts and Houdini-inferred object invariants / cursor contracts; explicit panics, divisions, type assertions and stdlib callees enumerated against a no-panic table. Every obligation is discharged or reported with file:line and witness. Holds for all inputs because no input value is represented.",
   "Not claimed: stack exhaustion by nesting depth, memory exhaustion (C14). Trusted: go/ssa lowering, the stdlib contract table (regexp, strings, sort, errors, fmt), Go semantics of nil slices/maps and of sort.Slice's index contract.",
   "abstract interpretation (nil-ness/shapes) + linear-inequality entailment with inferred invariants", "DESIGN.md section 3 C03")
+
+claim("C01", "other",
+  "Structural necessary conditions of the verdict's correctness, each decided on every run for all inputs: every kind of node contributes on every path of every dispatcher of the expansion (X1, abstract interpretation per node shape), no positional selection or re-slicing of alternative lists (X2), ownership of every append to a node slice (X3), nodes are neither constructed nor mutated by the expansion (X5), the verdict is derived as the formula 'exists alternative, forall term, exists allowed node: pair matches' from the loops and early exits (X4), AND binds tighter than OR and parentheses are transparent by construction of the parser (P1).",
+  "Does not decide that appendTerms/mergeTerms compute exactly the cross product, nor the pair matcher (C02). Trusted: go/ssa lowering; shape tables are derived from the construction sites of the current tree.",
+  "abstract interpretation over node shapes + slice-ownership + loop-to-quantifier summarisation + parser layering", "DESIGN.md section 3 C01")
+
+claim("C06", "other",
+  "'No term lost, none invented' along parse -> expand -> flatten -> canonical text -> de-duplicate, decided structurally: the expansion rules shared with C01 (X1, X2, X3, X5), the pipeline is element-wise, total and unconditional (E1), de-duplication keeps first occurrences only (E2), canonical text uses all and only the node's canonical fields (E3), printer constants are scanner keywords (E4).",
+  "The round-trip equalities themselves (a returned string re-parses to the same term; the result satisfies the expression) are value-level and not decided. Trusted: go/ssa lowering.",
+  "abstract interpretation + loop-shape recognition + printer/scanner constant agreement", "DESIGN.md section 3 C06")
+
+claim("C07", "other",
+  "Sound sufficient condition for set-semantics and monotonicity of the allowed list: independent construction of allowed nodes (S1), only permutation/compaction before use (S3), the allowed nodes occur in the derived verdict formula only as the domain of one positive existential (S2), the caller's list is only read (S4), spacing cannot reach the parser (W1).",
+  "Residual not decided: that the in-place compaction in sortAndDedup never drops the last copy of a node; case re-spelling is C09. Assumes purity of the pair matcher (C13).",
+  "loop-to-quantifier summarisation with polarity + taint + write-set classification", "DESIGN.md section 3 C07")
+
+claim("C10", "other",
+  "Narrow structural claim: the clauses whose failure produced the known shape asymmetries (X1-X4 as in C01), transparency of parentheses and precedence by construction (P1), spacing non-interference (W1), and agreement of all expansion dispatchers on the callee family per node kind (SIB).",
+  "Commutativity, associativity, idempotence, absorption and distribution as algebraic laws of the expansion are NOT decided (relations over unboundedly many pairs of runtime trees).",
+  "abstract interpretation + sibling cross-check of dispatchers", "DESIGN.md section 3 C10")
